@@ -44,8 +44,21 @@ def make_chain(rng, feature_names, log):
   fns, descr = [], []
   names = list(feature_names)
   for j in range(rng.randint(0, 4)):
-    kind = rng.randint(3)
-    if kind == 0:
+    kind = rng.randint(4)
+    if kind == 3:
+      # Updates and returns ITS INPUT dict (allowed: BatchPreprocessor hands each fn a private dict; arrays untouched).
+      mult = int(rng.randint(2, 5))
+      newname = f'inp{j}'
+
+      def f(ex, j=j, mult=mult, newname=newname):
+        log.append(j)
+        ex[newname] = (ex['idx'] * mult - j).astype(np.int64)
+        ex['idx'] = ex['idx'] + 0   # rebinding a key of the dict it was given
+        return ex
+
+      names.append(newname)
+      descr.append(f'inplace-dict:{newname}=idx*{mult}-{j}')
+    elif kind == 0:
       mult = int(rng.randint(2, 9))
       newname = f'd{j}'
 
@@ -130,8 +143,10 @@ def check_point(ctx, fedjax, cd, rng, n, b, k, ContractBroken):
   # reference: chain on the whole dataset
   ref = dict(raw)
   for _, f in chain:
-    ref = f(ref)
+    ref = f(dict(ref))
   log.clear()
+  raw_keys = list(raw)
+  raw_ids = {k: id(v) for k, v in raw.items()}
   wit = {'N': n, 'batch_size': b, 'buckets': k, 'features': list(raw), 'chain': descr}
   expected_ids = [j for j, _ in chain]
 
@@ -234,7 +249,44 @@ def check_point(ctx, fedjax, cd, rng, n, b, k, ContractBroken):
         set(x) == set(y) and all(bit_equal(x[f], y[f]) for f in x) for x, y in zip(it1, it2))
     ctx.check(same, 'reiterate/padded', 'padded_batch second iteration differs', wit)
 
+  # ---- histories on ONE view object: abandoned pass, then full pass; two live iterators in lock-step
+  if n > 0:
+    for kind_, mk_view in (('padded', lambda: ds.padded_batch(batch_size=b, num_batch_size_buckets=k)),
+                           ('plain', lambda: ds.batch(batch_size=b))):
+      mk = cd.EXAMPLE_MASK_KEY if kind_ == 'padded' else None
+
+      def rows(batches):
+        out = []
+        for bt in batches:
+          out.extend((bt['idx'][bt[mk]] if mk else bt['idx']).tolist())
+        return out
+
+      def hist():
+        view = mk_view()
+        it = iter(view)
+        next(it)            # abandon the pass after one batch
+        del it
+        second = rows(list(view))
+        a, c = iter(view), iter(view)   # two live iterators over the same view
+        inter = [[], []]
+        for x, y in zip(a, c):
+          inter[0].append(x)
+          inter[1].append(y)
+        return second, rows(inter[0]), rows(inter[1])
+
+      r = ctx.call(f'ClientDataset.{kind_}-view-history', hist, witness=wit)
+      if r.ok:
+        second, i0, i1 = r.value
+        exp_rows = ref['idx'].tolist() if 'idx' in ref else None
+        if exp_rows is not None:
+          ctx.check(second == exp_rows, f'reiterate/{kind_}-after-abandoned-pass',
+                    f'{kind_} view: a full pass after an abandoned pass yields rows {second[:12]}.. instead of the whole dataset', wit)
+          ctx.check(i0 == exp_rows and i1 == exp_rows, f'reiterate/{kind_}-concurrent-iterators',
+                    f'{kind_} view: two live iterators over the same view disturb each other', wit)
+
   # ---- dataset untouched
+  ctx.check(list(ds.raw_examples) == raw_keys and all(id(ds.raw_examples[k_]) == raw_ids[k_] for k_ in raw_keys),
+            'readonly/raw-dict-mutated', f'the dataset dict changed: keys {list(ds.raw_examples)} (expected {raw_keys})', wit)
   ctx.check(gen.digest(raw) == dig, 'readonly/raw-mutated', 'raw dataset arrays changed', wit)
 
   r_ = n % b
